@@ -5,6 +5,7 @@
 #include <hgraph/types/time_series/ts_output.h>
 #include <hgraph/types/value/value_builder.h>
 #include <hgraph/util/scope.h>
+#include <hgraph/util/verif_hooks.h>
 
 #include <array>
 #include <condition_variable>
@@ -113,17 +114,21 @@ namespace hgraph
                 }
                 consumer_thread = std::this_thread::get_id();
                 accepting       = true;
+                HGRAPH_VERIF_POINT(pq_start, this, max_pending, 0);
             }
 
             void stop()
             {
+                HGRAPH_VERIF_POINT(pq_stop_pre, this, 0, 0);
                 {
                     std::lock_guard lock{mutex};
+                    HGRAPH_VERIF_POINT(pq_stop_locked, this, values.size(), accepting);
                     accepting = false;
                     values.clear();
                     burst_element_binding = {};
                     burst_value_binding = {};
                     consumer_thread = {};
+                    HGRAPH_VERIF_POINT(pq_stop_done, this, values.size(), accepting);
                 }
                 capacity_available.notify_all();
             }
@@ -131,28 +136,34 @@ namespace hgraph
             [[nodiscard]] PushSourceSendResult try_send(
                 const PushSourcePolicyContext &context, Value value)
             {
+                HGRAPH_VERIF_POINT(pq_try_send_pre, this, 0, 0);
                 std::lock_guard lock{mutex};
                 if (!accepting)
                 {
+                    HGRAPH_VERIF_POINT(pq_refused_stopped, this, values.size(), max_pending);
                     return {};
                 }
                 validate(context, value);
                 if (full())
                 {
+                    HGRAPH_VERIF_POINT(pq_refused_full, this, values.size(), max_pending);
                     return {};
                 }
 
                 const bool was_empty = values.empty();
                 values.push_back(std::move(value));
+                HGRAPH_VERIF_POINT(pq_accepted, this, values.size(), was_empty);
                 return {.accepted = true, .wake_required = was_empty};
             }
 
             [[nodiscard]] PushSourceSendResult send_blocking(
                 const PushSourcePolicyContext &context, Value value)
             {
+                HGRAPH_VERIF_POINT(pq_send_blocking_pre, this, 0, 0);
                 std::unique_lock lock{mutex};
                 if (!accepting)
                 {
+                    HGRAPH_VERIF_POINT(pq_refused_stopped, this, values.size(), max_pending);
                     return {};
                 }
                 validate(context, value);
@@ -161,22 +172,28 @@ namespace hgraph
                     throw std::logic_error("PushSourceSender::send_blocking cannot wait on "
                                            "the graph evaluation thread");
                 }
+                HGRAPH_VERIF_POINT(pq_before_wait, this, values.size(), max_pending);
                 capacity_available.wait(lock, [this] { return !accepting || !full(); });
+                HGRAPH_VERIF_POINT(pq_after_wake, this, values.size(), accepting);
                 if (!accepting)
                 {
+                    HGRAPH_VERIF_POINT(pq_refused_stopped, this, values.size(), max_pending);
                     return {};
                 }
 
                 const bool was_empty = values.empty();
                 values.push_back(std::move(value));
+                HGRAPH_VERIF_POINT(pq_accepted, this, values.size(), was_empty);
                 return {.accepted = true, .wake_required = was_empty};
             }
 
             [[nodiscard]] std::optional<PushSourceQueuePop> try_pop()
             {
+                HGRAPH_VERIF_POINT(pq_try_pop_pre, this, 0, 0);
                 std::unique_lock lock{mutex};
                 if (values.empty())
                 {
+                    HGRAPH_VERIF_POINT(pq_pop_empty, this, 0, 0);
                     return std::nullopt;
                 }
 
@@ -186,6 +203,7 @@ namespace hgraph
                 };
                 values.pop_front();
                 result.more_pending = !values.empty();
+                HGRAPH_VERIF_POINT(pq_pop, this, values.size(), result.more_pending);
                 lock.unlock();
                 capacity_available.notify_one();
                 return result;
@@ -194,9 +212,11 @@ namespace hgraph
             [[nodiscard]] std::deque<Value> take_all()
             {
                 std::deque<Value> result;
+                HGRAPH_VERIF_POINT(pq_take_all_pre, this, 0, 0);
                 {
                     std::lock_guard lock{mutex};
                     result.swap(values);
+                    HGRAPH_VERIF_POINT(pq_take_all, this, result.size(), values.size());
                 }
                 if (!result.empty())
                 {
@@ -276,12 +296,15 @@ namespace hgraph
                 accepting = true;
                 pending = false;
                 next_mutation_time = MIN_ST;
+                HGRAPH_VERIF_POINT(cf_start, this, 0, 0);
             }
 
             void stop()
             {
+                HGRAPH_VERIF_POINT(cf_stop_pre, this, 0, 0);
                 std::lock_guard lock{mutex};
                 accepting = false;
+                HGRAPH_VERIF_POINT(cf_stop, this, pending, 0);
                 pending = false;
                 accumulator = TSOutput{};
                 output_schema = nullptr;
@@ -291,9 +314,11 @@ namespace hgraph
             [[nodiscard]] PushSourceSendResult try_send(
                 const PushSourcePolicyContext &context, Value value)
             {
+                HGRAPH_VERIF_POINT(cf_try_send_pre, this, 0, 0);
                 std::lock_guard lock{mutex};
                 if (!accepting)
                 {
+                    HGRAPH_VERIF_POINT(cf_refused_stopped, this, 0, 0);
                     return {};
                 }
                 if (!value.has_value())
@@ -313,6 +338,7 @@ namespace hgraph
                 const bool was_pending = pending;
                 apply_delta(accumulator.view(mutation_time), value.view());
                 pending = pending || accumulator.view(mutation_time).modified();
+                HGRAPH_VERIF_POINT(cf_accepted, this, pending, was_pending);
                 return {
                     .accepted = true,
                     .wake_required = pending && !was_pending,
@@ -327,9 +353,11 @@ namespace hgraph
 
             [[nodiscard]] std::optional<TSOutput> take_accumulated()
             {
+                HGRAPH_VERIF_POINT(cf_take_pre, this, 0, 0);
                 std::lock_guard lock{mutex};
                 if (!pending)
                 {
+                    HGRAPH_VERIF_POINT(cf_take_empty, this, 0, 0);
                     return std::nullopt;
                 }
 
@@ -337,6 +365,7 @@ namespace hgraph
                 accumulator = TSOutput{*output_schema};
                 pending = false;
                 next_mutation_time = MIN_ST;
+                HGRAPH_VERIF_POINT(cf_take, this, 1, 0);
                 return result;
             }
 
@@ -391,6 +420,7 @@ namespace hgraph
                 auto leave_call = make_scope_exit([this] { leave(); });
                 if (push_engine_.stop_requested())
                 {
+                    HGRAPH_VERIF_POINT(sc_stop_seen, this, 0, 0);
                     return false;
                 }
 
@@ -412,6 +442,7 @@ namespace hgraph
                 auto leave_call = make_scope_exit([this] { leave(); });
                 if (push_engine_.stop_requested())
                 {
+                    HGRAPH_VERIF_POINT(sc_stop_seen, this, 0, 0);
                     return false;
                 }
 
@@ -430,14 +461,17 @@ namespace hgraph
 
             void begin_close() noexcept
             {
+                HGRAPH_VERIF_POINT(sc_begin_close_pre, this, 0, 0);
                 std::lock_guard lock{mutex_};
                 closing_ = true;
+                HGRAPH_VERIF_POINT(sc_begin_close, this, active_calls_, 0);
             }
 
             void wait_for_quiescence() noexcept
             {
                 std::unique_lock lock{mutex_};
                 quiescent_.wait(lock, [this] { return active_calls_ == 0; });
+                HGRAPH_VERIF_POINT(sc_quiescent, this, active_calls_, 0);
             }
 
             void detach() noexcept
@@ -446,27 +480,33 @@ namespace hgraph
                 storage_ = nullptr;
                 push_engine_ = {};
                 type_realization_ = nullptr;
+                HGRAPH_VERIF_POINT(sc_detached, this, 0, 0);
             }
 
           private:
             [[nodiscard]] bool enter() noexcept
             {
+                HGRAPH_VERIF_POINT(sc_enter_pre, this, 0, 0);
                 std::lock_guard lock{mutex_};
                 if (closing_ || storage_ == nullptr)
                 {
+                    HGRAPH_VERIF_POINT(sc_enter_refused, this, closing_, active_calls_);
                     return false;
                 }
                 ++active_calls_;
+                HGRAPH_VERIF_POINT(sc_entered, this, active_calls_, 0);
                 return true;
             }
 
             void leave() noexcept
             {
+                HGRAPH_VERIF_POINT(sc_leave_pre, this, 0, 0);
                 std::lock_guard lock{mutex_};
                 if (--active_calls_ == 0)
                 {
                     quiescent_.notify_all();
                 }
+                HGRAPH_VERIF_POINT(sc_left, this, active_calls_, 0);
             }
 
             mutable std::mutex      mutex_{};
